@@ -635,6 +635,8 @@ impl AsyncClient {
 
         let (sender, receiver) = oneshot::channel();
         let mut pending_guard = PendingRequestGuard::register(&self.inner, id, sender)?;
+        #[cfg(feature = "verif-hooks")]
+        crate::verif_hooks::hit("aclient.after_register");
 
         self.write_request(&msg).await?;
 
@@ -656,6 +658,8 @@ impl AsyncClient {
     }
 
     async fn write_request(&self, msg: &Message) -> Result<(), RepeError> {
+        #[cfg(feature = "verif-hooks")]
+        crate::verif_hooks::hit("aclient.before_write");
         let mut writer = self.inner.writer.lock().await;
         write_message_async(&mut *writer, msg).await?;
         writer.flush().await?;
@@ -835,6 +839,8 @@ fn spawn_response_loop(
                 }
             };
 
+            #[cfg(feature = "verif-hooks")]
+            crate::verif_hooks::hit("aclient.reader.got_frame");
             let dispatch = {
                 let Some(inner_ref) = inner.upgrade() else {
                     break;
@@ -856,6 +862,8 @@ fn spawn_response_loop(
 
             match dispatch {
                 PendingDispatch::Matched { sender, response } => {
+                    #[cfg(feature = "verif-hooks")]
+                    crate::verif_hooks::hit("aclient.reader.before_deliver");
                     let _ = sender.send(Ok(response));
                 }
                 PendingDispatch::Unrecognized { got_id } => {
@@ -875,6 +883,8 @@ async fn fail_all_pending(inner: &std::sync::Weak<AsyncClientInner>, err: RepeEr
         let mut writer = inner_ref.writer.lock().await;
         let _ = writer.shutdown().await;
     }
+    #[cfg(feature = "verif-hooks")]
+    crate::verif_hooks::hit("aclient.fail.after_shutdown");
 
     let waiters = {
         let mut pending = lock_pending_map(&inner_ref.pending);
